@@ -627,7 +627,16 @@ func genTmplCase(r *Rng, out *outFiles) {
 			tplB, _ := m.GetTemplate(name)
 			ra := execOne(tplA, tmplRun{data: d1, budget: -1})
 			rb := execOne(tplB, tmplRun{data: d2, budget: -1})
-			if ra.class == "" && rb.class == "" && !strings.Contains(ts.Files[0][1]+fmt.Sprint(ts.Files), "raw") && !strings.Contains(fmt.Sprint(ts.Files), "recs(") {
+			// a with-binding may rebind a name that control directives read (num := ${s2} and :range="x : num"): then the
+			// inserted string legitimately steers the control flow - outside this clause
+			rebinds := false
+			all := fmt.Sprint(ts.Files)
+			for _, nm := range []string{"num :=", "s1 :=", "true :=", "false :=", "len :="} {
+				if strings.Contains(all, nm) {
+					rebinds = true
+				}
+			}
+			if ra.class == "" && rb.class == "" && !rebinds && !strings.Contains(ts.Files[0][1]+all, "raw") && !strings.Contains(all, "recs(") {
 				ta, oka := tagsOf(ra.out)
 				tb, okb := tagsOf(rb.out)
 				if okb && (!oka || ta != tb) {
